@@ -192,6 +192,23 @@ func Modules(t *rapid.T, o ModOpts) *ModuleSet {
 	nCond := rapid.IntRange(0, 3).Draw(t, "nConds")
 	for i := 0; i < nCond; i++ {
 		cn := c.fresh("c")
+		// types and conditions live in different name spaces: a condition may be named like a type (or like a
+		// relation) without any conflict
+		if rapid.IntRange(0, 3).Draw(t, "condLikeType") == 0 {
+			cand := rapid.SampledFrom(baseNames).Draw(t, "condTypeName")
+			if rapid.Bool().Draw(t, "condLikeRel") && len(base[cand].rels) > 0 {
+				cand = base[cand].rels[0]
+			}
+			taken := false
+			for _, x := range condNames {
+				if x == cand {
+					taken = true
+				}
+			}
+			if isPlainIdentifier(cand) && !reservedCondMode[cand] && !taken {
+				cn = cand
+			}
+		}
 		fi := rapid.IntRange(0, nFiles-1).Draw(t, "condFile")
 		ms.Files[fi].Model.Conds = append(ms.Files[fi].Model.Conds, Condition{Name: cn, Params: []Param{{Name: "x", Type: "int"}}, Expr: "x > 1"})
 		condNames = append(condNames, cn)
